@@ -3,7 +3,7 @@ import re
 import vlib, gen_facts
 from props import codec_common as cc
 
-THEOREMS = ['C01_token_roundtrip', 'C01_tag_roundtrip', 'C01_int_value_roundtrip', 'C01_section_step', 'C01_section_finish', 'C01_elem_step', 'C01_elem_finish', 'C01_group_roundtrip', 'C01_section_roundtrip', 'C01_roundtrip_explicit', 'C01_roundtrip', 'C01_roundtrip_by_type', 'C01_roundtrip_norm', 'C01_utest_wf', 'C01_roundtrip_utest', 'C01_roundtrip_utest_by_type']
+THEOREMS = ['C01_fix44_wf', 'C01_roundtrip_fix44', 'C01_token_roundtrip', 'C01_tag_roundtrip', 'C01_int_value_roundtrip', 'C01_section_step', 'C01_section_finish', 'C01_elem_step', 'C01_elem_finish', 'C01_group_roundtrip', 'C01_section_roundtrip', 'C01_roundtrip_explicit', 'C01_roundtrip', 'C01_roundtrip_by_type', 'C01_roundtrip_norm', 'C01_utest_wf', 'C01_roundtrip_utest', 'C01_roundtrip_utest_by_type']
 RT = re.compile(r'^wire=(\S+) dec=(H\[.*\] B\[.*\] T\[.*\]) re=(\S+)$')
 
 
@@ -77,6 +77,26 @@ def run(res, replay=None):
     vlib.decide_stream(res, module='Fix8Model.Props.C01', theorems=THEOREMS, stream='codec', harness_name='codec', lines=lines,
                        oracle=make_oracle(sc, meta), nontrivial=lambda l: l if l.count('=') >= 7 else None,
                        harness_kw=dict(need_schema=True), extra_obligation_problems=errs)
+    # the same on the stock FIX44 schema (generated tables: SchemaWF re-proved by the kernel in C01_fix44_wf)
+    if not replay:
+        errs44 = gen_facts.generate(['schema_fix44'])
+        sc44 = cc.schema44()
+        rng44 = vlib.rng_for('C01-44', res.seed)
+        l44, m44 = [], {}
+        for i in range(150 if res.tier == 'quick' else 6000):
+            mt, items = cc.gen_message_capped(rng44, sc44, trailer_plain=0.25)
+            l, its = cc.spec_line('rt', mt, items, rng44, want_items=True)
+            l44.append(l)
+            m44[l] = (mt, its)
+        for mt, _ in sc44['msgs']:
+            mt2, items = cc.gen_message_capped(rng44, sc44, p_opt=1.0, msgtype=mt)
+            l, its = cc.spec_line('rt', mt2, items, rng44, want_items=True)
+            l44.append(l)
+            m44[l] = (mt2, its)
+        res.cov['fix44'] = cc.run_second_schema(res, l44, make_oracle(sc44, m44))
+        res.cov['fix44']['message_types'] = len({l.split()[1] for l in l44})
+        for e in errs44:
+            res.violation(e, 'generated fact for FIX44 failed: ' + e[:200], no_input=True)
     res.cov['message_types'] = len({l.split()[1] for l in lines if l.startswith('rt ')})
     res.cov['with_groups'] = sum(1 for l in lines if '[' in l)
     res.cov['with_data'] = sum(1 for l in lines if re.search(r' h?(91|213|349|351|355|359|361|363|365)=', l))
